@@ -467,10 +467,9 @@ func redactPipelineStage(stage interface{}, redactFieldNames bool, keyPath []str
 							redactedArr[i] = redactPipelineStage(elem, redactFieldNames, newKeyPath, inSearchStage)
 						}
 						newMap.Set(redactedKey, redactedArr)
-					} else {
-						newMap.Set(redactedKey, v)
+						continue
 					}
-					continue
+					// a single operand that is not wrapped in an array is redacted like any other value below
 				}
 			case *orderedmap.OrderedMap[string, any]:
 				if subMap, ok := v.(*orderedmap.OrderedMap[string, any]); ok {
@@ -528,10 +527,9 @@ func redactPipelineStage(stage interface{}, redactFieldNames bool, keyPath []str
 											redactedArr[i] = redactPipelineStage(elem, redactFieldNames, newKeyPath, inSearchStage)
 										}
 										newSubMap.Set(subK, redactedArr)
-									} else {
-										newSubMap.Set(subK, subV)
+										continue
 									}
-									continue
+									// a single operand that is not wrapped in an array is redacted like any other value below
 								case Pipeline:
 									if arr, ok := subV.([]any); ok {
 										isSelectivelyRedactable := isRedactableFieldPatternInArray(arr)
